@@ -79,6 +79,12 @@ def forced_feature_cases(rng):
     out.append(base(frames=9, width=128, height=128, content="splitv", **{"cfg.tile_rows": 1, "cfg.logical_processors": 4, "cfg.qp": 20}))
     out.append(base(frames=9, width=256, height=128, content="splith", **{"cfg.tile_columns": 1, "cfg.logical_processors": 4, "cfg.qp": 30}))
     out.append(base(frames=6, width=256, height=256, content="splitv", **{"cfg.tile_rows": 2, "cfg.tile_columns": 1, "cfg.logical_processors": 8, "cfg.qp": 10}))
+    # variance based segmentation (AQ mode 1): segment ids are predicted from neighbours (tile-relative in a decoder) and
+    # every segment has its own qindex (0 would be lossless, > 255 outside the tables)
+    out.append(base(frames=9, width=192, height=192, content="mix", **{"cfg.enable_adaptive_quantization": 1, "cfg.tile_columns": 1,
+                                                                    "cfg.tile_rows": 1, "cfg.qp": 30, "cfg.logical_processors": 4}))
+    out.append(base(frames=9, width=192, height=128, content="pan", **{"cfg.enable_adaptive_quantization": 1, "cfg.qp": 20}))
+    out.append(base(frames=5, width=128, height=128, content="noise", **{"cfg.enable_adaptive_quantization": 1, "cfg.qp": 63}))
     out.append(base(frames=9, width=70, height=94, content="gradient"))
     out.append(base(frames=9, width=66, height=66, content="extreme", **{"cfg.qp": 0}))
     out.append(base(frames=9, content="noise", **{"cfg.qp": 63}))
@@ -209,6 +215,16 @@ def _hl5_region(case):
     return hl == 5 and (ov or 1 <= lp <= 2)
 
 
+def _hl5_long_region(case):
+    """the same deadlock for every 1 <= logical_processors <= 15 once the stream is longer than two mini-GOPs
+    (measured: 66 pictures finish, 72 never do; always stuck submitting picture 104 with 33 packets delivered);
+    an intra period of one mini-GOP (31) does not hang, 63 / 127 / none do"""
+    hl = int(case.get("cfg.hierarchical_levels", 4))
+    lp = int(case.get("cfg.logical_processors", 0))
+    ip = int(case.get("cfg.intra_period_length", -2))
+    return hl == 5 and 1 <= lp <= 15 and (ip < 0 or ip >= 32) and int(case.get("frames", 0)) >= 67
+
+
 def _ipmg_region(case):
     """second deadlock family: <= 2 logical processors and an intra period that is a whole number of mini-GOPs
     (the configuration the API header recommends); send_picture blocks for ever on the input pool after ~16 pictures,
@@ -229,7 +245,7 @@ def known_hang_region(case):
     still run them (short watchdog); the others skip them because they cannot be judged there."""
     try:
         n = int(case.get("frames", 0))
-        return (_hl5_region(case) and n >= 32) or (_ipmg_region(case) and n >= 10) or (_sbcol_region(case) and n >= 1)
+        return (_hl5_region(case) and n >= 32) or _hl5_long_region(case) or (_ipmg_region(case) and n >= 10) or (_sbcol_region(case) and n >= 1)
     except ValueError:
         return False
 
@@ -238,6 +254,8 @@ def hang_sig(case):
     try:
         if _hl5_region(case):
             return "hl5+(overlays|lp<=2)"
+        if _hl5_long_region(case):
+            return "hl5+lp<=15+frames>=67"
         if _ipmg_region(case):
             return "lp<=2+intra-period-whole-minigops"
         if _sbcol_region(case):
@@ -255,8 +273,10 @@ def log_tail(prefix, n=3):
         return ""
 
 
-def read_tag(frame):
-    """Decode the two-digit tag painted by the content generator (vcommon.h) from a decoded picture."""
+def read_tag(frame, strict=False):
+    """Decode the two-digit tag painted by the content generator (vcommon.h) from a decoded picture.
+    strict: return None when a patch is not a clean, near-uniform rendering of one of the eight levels (the picture
+    content was not coded faithfully enough to identify it; lossy coding owes no fidelity to the tag)."""
     key, w, h, bd, data = frame
     bps = 2 if bd > 8 else 1
     if w < 32 or h < 16:
@@ -265,6 +285,7 @@ def read_tag(frame):
     for d in range(2):
         tot = 0
         cnt = 0
+        lo, hi = 1 << 20, -1
         for y in range(4, 12):
             row = (y * w + d * 16 + 4) * bps
             for x in range(8):
@@ -274,7 +295,11 @@ def read_tag(frame):
                     v = (data[row + 2 * x] | (data[row + 2 * x + 1] << 8)) >> (bd - 8)
                 tot += v
                 cnt += 1
+                lo = min(lo, v)
+                hi = max(hi, v)
         mean = tot / cnt
         digit = int(round((mean - 20) / 30.0))
+        if strict and (digit < 0 or digit > 7 or abs(mean - (20 + 30 * digit)) > 9 or hi - lo > 24):
+            return None
         digits.append(max(0, min(7, digit)))
     return digits[0] + 8 * digits[1]
